@@ -124,6 +124,7 @@ def check(prog, rep):
     r3.add("reader-state-fresh", fresh, "read_dx builds its result from literals created in the call" if fresh else
            f"read_dx builds its result from {U(binds[0].value) if binds else '?'}: containers that outlive the call are shared between conversions "
            "(a second conversion in the same process appends to the first one's values)", wr)
+    rep.guarded(rule_model_conversion, prog, rep)
     # ------------------------------------------------------------------ R4
     r4 = rep.rule("R4", "values are printed with >= 5 significant decimals in exponent format", floor=1)
     specs = set()
@@ -278,6 +279,123 @@ def emit_indices(stmts, seq, n, env, cover, order, strides):
                 raise AnalysisError(f"write_cube: statement {type(st).__name__} outside the recognised subset of the value-writing code")
 
     run(stmts)
+
+
+DX_VALUES = [0.0, 1.0, -1.0, 5.97222497, -123456.789, 1e-300, -1e-300, 1e300, -1e300, 3.4e38 * 10, 1.2e-38 / 10, 0.1, 2.0 / 3.0, -7.25e-5, 9.999995,
+             12.0, 13.0, 14.0, 15.0, 16.0, 17.0, 18.0, 19.0, 20.0, 21.0]  # 25 = 1 x 5 x 5 values: not a multiple of three or six
+DX_COUNTS = (1, 5, 5)
+DX_ORIGIN = (-1.5, 2.25, 3.0)
+DX_DELTAS = [(0.5, 0.0, 0.0), (0.0, 0.25, 0.0), (0.0, 0.0, 1.0)]
+
+
+def dx_model_lines():
+    lines = ["# Data from the model\n", "#\n",
+             f"object 1 class gridpositions counts {DX_COUNTS[0]} {DX_COUNTS[1]} {DX_COUNTS[2]}\n",
+             "origin " + " ".join(repr(x) for x in DX_ORIGIN) + "\n"]
+    lines += ["delta " + " ".join(repr(x) for x in d) + "\n" for d in DX_DELTAS]
+    lines += [f"object 2 class gridconnections counts {DX_COUNTS[0]} {DX_COUNTS[1]} {DX_COUNTS[2]}\n",
+              f"object 3 class array type double rank 0 items {len(DX_VALUES)} data follows\n"]
+    for i in range(0, len(DX_VALUES), 3):
+        lines.append(" ".join(f"{v:.8e}" for v in DX_VALUES[i:i + 3]) + "\n")
+    lines += ['attribute "dep" string "positions"\n', 'object "regular positions regular connections" class field\n',
+              'component "positions" value 1\n', 'component "connections" value 2\n', 'component "data" value 3\n']
+    return lines
+
+
+def rule_model_conversion(prog, rep):
+    """read_pqr, read_dx and write_cube are evaluated by constant propagation on a model conversion: a DX file with every
+    header construct of the format and one value per magnitude class (25 values: not a multiple of three or six), and a
+    PQR file with one line per layout class.  The cube text they produce is parsed and compared with the inputs."""
+    from ..guards import Flow
+    from ..objinterp import ObjRunner
+    from .shared import PQR_MODEL_LINES
+    r = rep.rule("R5", "model conversion: header, atom block and values of the cube equal the DX and PQR inputs", floor=6)
+    where = "pdb2pqr/io.py (read_pqr, read_dx, write_cube)"
+    written = []
+
+    def extra(runner, interp, call, args, kw):
+        if isinstance(call.func, ast.Attribute) and call.func.attr == "write":
+            recv = interp.ev(call.func.value)
+            if isinstance(recv, dict) and recv.get("__class__") == "FileModel":
+                written.append(args[0])
+                return None
+        return NotImplemented
+
+    run = ObjRunner(prog, "io.py", extra_hook=extra)
+    try:
+        atoms = run.call_function("io.py", "read_pqr", [ln for ln, _ in PQR_MODEL_LINES])
+        dx = run.call_function("io.py", "read_dx", dx_model_lines())
+        dx2 = run.call_function("io.py", "read_dx", dx_model_lines())
+        run.call_function("io.py", "write_cube", {"__class__": "FileModel"}, dx, atoms)
+    except Flow as fl:
+        r.bad("model|runs", f"the conversion stops with {fl.value} on the model input", where)
+        return
+    text = "".join(str(x) for x in written)
+    lines = text.split("\n")
+    want_atoms = [w for _, w in PQR_MODEL_LINES if w is not None]
+    r.add("model|second-read-equals-first", isinstance(dx, dict) and isinstance(dx2, dict) and U_keys(dx) == U_keys(dx2)
+          and all(dx[k] == dx2[k] for k in dx), "reading the same DX file twice in one process gives the same data", where)
+    if len(lines) < 6 + len(want_atoms):
+        r.bad("model|header", f"the cube has {len(lines)} lines; at least {6 + len(want_atoms)} expected", where)
+        return
+    # line 3: atom count and origin
+    tok = lines[2].split()
+    ok = len(tok) == 4 and _num(tok[0]) == len(want_atoms) and all(_close(_num(tok[1 + k]), DX_ORIGIN[k]) for k in range(3))
+    r.add("model|count-and-origin", ok, f"third line {lines[2]!r}: atom count {len(want_atoms)} and origin {DX_ORIGIN} expected", where)
+    ok = True
+    for k in range(3):
+        tok = lines[3 + k].split()
+        ok &= len(tok) == 4 and _num(tok[0]) == -DX_COUNTS[k] and all(_close(_num(tok[1 + j]), DX_DELTAS[k][j]) for j in range(3))
+    r.add("model|axes", ok, f"axis lines {lines[3:6]}: counts {tuple(-c for c in DX_COUNTS)} (negative: Angstrom units) with the delta rows "
+          f"{DX_DELTAS} expected", where)
+    ok, detail = True, ""
+    for k, w in enumerate(want_atoms):
+        tok = lines[6 + k].split()
+        good = len(tok) == 5 and _num(tok[0]) == w["serial"] and _close(_num(tok[1]), w["charge"]) and all(
+            _close(_num(tok[2 + j]), w["xyz"[j]]) for j in range(3))
+        if not good:
+            ok, detail = False, f"atom line {k + 1} is {lines[6 + k]!r}, expected serial {w['serial']} charge {w['charge']} at ({w['x']}, {w['y']}, {w['z']})"
+            break
+    r.add("model|atom-block", ok, detail or f"{len(want_atoms)} atom lines (ATOM and HETATM, all layouts) carry serial, charge, x, y, z", where)
+    vals = " ".join(lines[6 + len(want_atoms):]).split()
+    exp = [float(f"{v:.8e}") for v in DX_VALUES]
+    okc = len(vals) == len(exp)
+    bad = []
+    if okc:
+        for i, (tkn, v) in enumerate(zip(vals, exp)):
+            g = _num(tkn)
+            if g is None or not _close(g, v, rel=6e-6, abs_=None):
+                bad.append(f"value {i}: {tkn} for {v!r}")
+    r.add("model|values", okc and not bad, f"{len(vals)} value tokens for {len(exp)} DX values" + (f"; {bad[:4]}" if bad else
+          "; each equals its DX value to the printed precision (magnitudes from 1e-300 to 1e300, zero, negatives)"), where)
+    rows = [len(ln.split()) for ln in lines[6 + len(want_atoms):] if ln.strip()]
+    r.add("model|rows", bool(rows) and max(rows) <= 6, f"values per row: {rows}", where)
+    r.info["methods_interpreted"] = sorted(set(run.calls))
+
+
+def U_keys(d):
+    return sorted(map(str, d))
+
+
+def _num(tok):
+    try:
+        return int(tok)
+    except ValueError:
+        try:
+            return float(tok)
+        except ValueError:
+            return None
+
+
+def _close(a, b, rel=1e-5, abs_=5e-7):
+    import math
+    if a is None:
+        return False
+    if math.isinf(b) or math.isinf(a):
+        return a == b
+    if abs_ is None:
+        return a == b if b == 0 else abs(a - b) <= rel * abs(b)
+    return abs(a - b) <= max(abs_, rel * abs(b))
 
 
 class _Opaque(Exception):
